@@ -28,13 +28,13 @@ def budget(tier):
     return {"runs": 120000, "wall": 1200, "chunk": 10}
 
 
-DIRS = ["gff-version 3", "sequence-region chr1 1 1000", "species x", "#", "date 2020", "feature-ontology so.obo", "x y  z "]
+DIRS = ["gff-version 3", "sequence-region chr1 1 1000", "species x", "#", "date 2020", "feature-ontology so.obo", "x y  z ", "", "0"]
 
 
 def gen(rng, tier):
     fmt = "gff3" if rng.random() < 0.7 else "gtf"
     if fmt == "gff3":
-        feats = G.gff3_batch(rng, rng.randint(1, 9), {"p_id": 0.8, "p_parent": 0.4, "seqids": ["chr1"], "pool": [1, 5, 10, 20]},
+        feats = G.gff3_batch(rng, rng.randint(1, 9) if rng.random() > 0.03 else rng.choice([150, 400, 1050]), {"p_id": 0.3 if rng.random() < 0.5 else 0.8, "p_parent": 0.4, "seqids": ["chr1"], "pool": [1, 5, 10, 20]},
                              unique_ids=True)
     else:
         feats = []
